@@ -126,10 +126,37 @@ static vj::value wide(const vj::value& c, const std::vector<long>& shp) {
     vj::value r = vj::value::object(); r.set("__events", evs); return r;
 }
 
+// the same with fixed-length containers of 32-bit elements: every extent and stride fits the element type, the size does not
+// (the offset is accumulated in nm_size_t; the unrolled branch of compute_offset is the one taken here)
+template <class T, size_t D>
+static vj::value wide_arr(const vj::value& c, const std::vector<long>& shp) {
+    std::array<T, D> shape; for (size_t i = 0; i < D; i++) shape[i] = (T)shp[i];
+    auto strides = ix::compute_strides(shape);
+    vj::value evs = vj::value::array();
+    for (size_t q = 0; q < c["kds"].size(); q++) {
+        size_t k = (size_t)undigits(c["kds"][q]);
+        auto i1 = ix::compute_indices(k, shape);
+        auto i2 = ix::compute_indices(k, shape, strides);
+        auto off = ix::compute_offset(i1, strides);
+        vj::value st = vj::value::array(); for (size_t i = 0; i < D; i++) st.push(digits((unsigned long long)nm::at(strides, i)));
+        vj::value s = vj::value::object();
+        s.set("e", "wide").set("id", c["id"].as_int()).set("shape", vj::value(shp)).set("strides", st)
+         .set("k", c["kds"][q]).set("idx", vj::value(shape_vec(i1))).set("idx2", vj::value(shape_vec(i2))).set("off", digits((unsigned long long)off));
+        evs.push(s);
+    }
+    vj::value r = vj::value::object(); r.set("__events", evs); return r;
+}
+template <class T> static vj::value wide_arr_d(const vj::value& c, const std::vector<long>& shp) {
+    switch (shp.size()) { case 2: return wide_arr<T, 2>(c, shp); case 3: return wide_arr<T, 3>(c, shp); case 4: return wide_arr<T, 4>(c, shp); case 5: return wide_arr<T, 5>(c, shp); }
+    return crash_res("driver:dimension not compiled");
+}
+
 static vj::value handle(const vj::value& c) {
     auto shp = c["shape"].as_vec<long>();
     std::string cfg = c["cfg"].as_str();
     size_t d = shp.size();
+    if (cfg == "wide_arr_u32") return wide_arr_d<uint32_t>(c, shp);
+    if (cfg == "wide_arr_i32") return wide_arr_d<int32_t>(c, shp);
     if (cfg == "wide_sz") return wide<size_t>(c, shp);
     if (cfg == "wide_i64") return wide<int64_t>(c, shp);
     if (cfg == "big_sz") return big<size_t>(c, shp);
